@@ -55,6 +55,12 @@ func (dm *DMap) deleteFromPreviousOwners(key string, owners []discovery.Member) 
 	// Traverse in reverse order. Except from the latest host, this one.
 	for i := len(owners) - 2; i >= 0; i-- {
 		owner := owners[i]
+		if owner.CompareByID(dm.s.rt.This()) {
+			// Background eviction also runs on a node that is a previous owner itself. The caller
+			// holds the fragment lock and removes the local copy: a DelEntry sent to this very node
+			// would only wait for that lock until the client times out.
+			continue
+		}
 		cmd := protocol.NewDelEntry(dm.name, key).Command(dm.s.ctx)
 		rc := dm.s.client.Get(owner.String())
 		err := rc.Process(dm.s.ctx, cmd)
